@@ -29,7 +29,20 @@ from .. import child
 from .. import common as C
 from ..common import Corr, Violation, clist, cz
 
+# The statement trees of the emitter (Repeater, Factory._context, TraceCallHandler, TaskAndThreadKeeper,
+# TaskOrThreadToTraceMapper, CmdloopHook, PromptFunc, CustomizedPdb.cmdloop, count.py, registration order) are
+# regenerated from /repo on every run into Gen/EmitterSkel.v; Events/Interp.v interprets them under the structured
+# actor programs and schedules of Events/Emitter.v and Events/Tie.v proves the simulation (C09_tie_* in Props/C09.v).
+TRANSLATORS = ['emitter_skeleton']
+
 TRUSTED_BASE = [
+    'translate/emitter_skeleton.py (ast -> terms of Events/Syntax.v; fail closed: an unrecognised statement or expression in a '
+    'translated function aborts the translation; ignored: logging, docstrings, asserts without a binding, timestamps, the '
+    'done-callback bookkeeping of TaskAndThreadKeeper) and the meaning Events/Interp.v gives to the trees (generator-based '
+    'context managers stacked as apluggy does; derived fields of TraceCallInfo; no exception except an explicit raise; one '
+    'label = up to and including the next counter call / queue put, then on to the next point where settrace / Pdb decide; '
+    'the environment: filtered() at a trace call, `with _context(..): trace()`, cmdloop iff the item has a command loop, '
+    '_prompt_func per prompt, _on_end by the done-callback)',
     'correspondence harness harness/props/c09.py + harness/child.py, child_worker.py (program/policy generators, '
     'event-to-term encoding: payloads interned to integers)',
     'modelled, not verified: Python `with`/`finally`, generator-based context managers, sys.settrace discipline and '
